@@ -1488,6 +1488,10 @@ class Engine:
         if run.depth > 12:
             raise Unsupported(f"inline depth exceeded at {key}")
         if key in run.inline_stack:
+            if fi.kind == "property" and args:
+                # x.name -> x._gate_def.name -> ... on a value of unknown class: cut the chain with an
+                # unconstrained value (weaker knowledge, never unsound)
+                return tv_val(S.fld("@prop_" + fi.name)(self.to_tv(args[0]).val()))
             raise Unsupported(f"recursive call to uncontracted function {key}")
         modframe = Frame({}, module=fi.module, cls=fi.cls)
         bound = self.bind_args(fi.node, args, kwargs, modframe, what=key)
